@@ -19,6 +19,24 @@ Definition show_event (e : event) : sx :=
   | EMalformed => Lst [tag (lit "malformed")]
   end.
 
+Definition show_state (s : dstate) : sx :=
+  match s with
+  | PREAMBLE => tag (lit "PREAMBLE")
+  | PART => tag (lit "PART")
+  | DATA => tag (lit "DATA")
+  | EPILOGUE => tag (lit "EPILOGUE")
+  | COMPLETE => tag (lit "COMPLETE")
+  end.
+
+Definition show_pitem (p : pitem) : sx :=
+  match p with
+  | PDone h c => Lst [tag (lit "done"); show_event h; Str c]
+  | POpen h c => Lst [tag (lit "open"); show_event h; Str c]
+  | PStray => Lst [tag (lit "stray-data")]
+  | PEpi => Lst [tag (lit "epilogue")]
+  | PMal => Lst [tag (lit "malformed")]
+  end.
+
 Definition show_item (i : item) : sx :=
   match i with
   | IText n t => Lst [tag (lit "text"); show_name n; Str t]
@@ -33,64 +51,44 @@ Definition show_outcome (o : houtcome) : sx :=
   end.
 
 Definition rd_chunks (x : sx) : list bytes := map sx_s (sx_l x).
-
-(* the parts as the next layer sees them: data events of one part concatenated *)
-Fixpoint normalise (evs : list event) (cur : option (sx * bytes)) : list sx :=
-  let flush := match cur with Some (h, d) => [Lst [h; Str d; tag (lit "open")]] | None => [] end in
-  match evs with
-  | [] => flush
-  | EField n hs :: r => flush ++ normalise r (Some (Lst [tag (lit "field"); show_name n; show_hdrs hs], []))
-  | EFile n fn hs :: r => flush ++ normalise r (Some (Lst [tag (lit "file"); show_name n; Str fn; show_hdrs hs], []))
-  | EData d more :: r =>
-      match cur with
-      | Some (h, acc) =>
-          if more then normalise r (Some (h, acc ++ d))
-          else Lst [h; Str (acc ++ d); tag (lit "done")] :: normalise r None
-      | None => Lst [tag (lit "stray-data")] :: normalise r None
-      end
-  | EPreamble _ :: r => normalise r cur
-  | EEpilogue _ :: r => flush ++ [Lst [tag (lit "epilogue")]] ++ normalise r None
-  | EMalformed :: r => flush ++ [Lst [tag (lit "malformed")]] ++ normalise r None
-  | ENeed :: r => normalise r cur
-  end.
+Definition rd_limit (x : sx) : option nat := match x with Lst [Num m] => Some (Z.to_nat m) | _ => None end.
 
 Definition run_case (c : list sx) : list sx :=
   match c with
   | Str op :: rest =>
       if bytes_eqb op (lit "events") then
+        (* per chunk (the last entry is end-of-input): events, len(buffer), state; then the parts *)
         match rest with
         | [Str b; Num u; chunks] =>
-            map (fun p => Lst [Lst (map show_event (fst p)); of_nat (snd p)])
-                (run_chunks b (negb (Z.eqb u 0)) new_decoder (rd_chunks chunks))
-        | _ => [tag (lit "badcase")]
-        end
-      else if bytes_eqb op (lit "parts") then
-        match rest with
-        | [Str b; Num u; chunks] =>
-            normalise (flat_map fst (run_chunks b (negb (Z.eqb u 0)) new_decoder (rd_chunks chunks))) None
+            let tr := run_chunks b (negb (Z.eqb u 0)) new_decoder (rd_chunks chunks) in
+            [Lst (map (fun p => Lst [Lst (map show_event (fst p)); of_nat (length (d_buf (snd p)));
+                                     show_state (d_state (snd p))]) tr);
+             Lst (map show_pitem (collect (all_events tr) None))]
         | _ => [tag (lit "badcase")]
         end
       else if bytes_eqb op (lit "form") then
-        (* the stream helpers and the request accessors: four observations of one result *)
+        (* parse_stream, parse_async_stream with the given limits; Request.form (WSGI, ASGI) with
+           the default limits of the helper each of them calls *)
         match rest with
-        | [Str b; Num u; Num mp; mm; chunks] =>
-            let o := show_outcome (parse_stream b (negb (Z.eqb u 0)) (Z.to_nat mp)
-                             (match mm with Lst [Num m] => Some (Z.to_nat m) | _ => None end)
-                             (rd_chunks chunks)) in
-            [o; o; o; o]
-        | _ => [tag (lit "badcase")]
-        end
-      else if bytes_eqb op (lit "stream") then
-        match rest with
-        | [Str b; Num u; Num mp; mm; chunks] =>
-            [show_outcome (parse_stream b (negb (Z.eqb u 0)) (Z.to_nat mp)
-                             (match mm with Lst [Num m] => Some (Z.to_nat m) | _ => None end)
-                             (rd_chunks chunks))]
+        | [Str b; Num u; Num mp; mm; chunks; Num smp; smm; Num amp; amm] =>
+            let run mp mm := show_outcome (parse_stream b (negb (Z.eqb u 0)) (Z.to_nat mp) (rd_limit mm)
+                                                        (rd_chunks chunks)) in
+            [run mp mm; run mp mm; run smp smm; run amp amm]
         | _ => [tag (lit "badcase")]
         end
       else if bytes_eqb op (lit "header") then
         match rest with
         | [Str line] => let '(k, opts) := parse_header line in [Str k; show_hdrs opts]
+        | _ => [tag (lit "badcase")]
+        end
+      else if bytes_eqb op (lit "part") then
+        match rest with
+        | [Num u; Str block] =>
+            match parse_part (negb (Z.eqb u 0)) block with
+            | PBadHeader => [tag (lit "bad-header")]
+            | PNoDisposition => [tag (lit "no-disposition")]
+            | PEvent ev => [show_event ev]
+            end
         | _ => [tag (lit "badcase")]
         end
       else if bytes_eqb op (lit "decode") then
